@@ -16,8 +16,10 @@
 /* The serialized seed. The contents are platform-independent. */
 typedef uint8_t polyseed_storage[POLYSEED_SIZE];
 
-/* The maximum possible length of a mnemonic phrase */
-#define POLYSEED_STR_SIZE 360
+/* The maximum possible length of a mnemonic phrase, including the terminating
+   null. The longest phrase is Korean: 543 bytes in the decomposed (NFKD) form
+   that is used internally; Japanese needs 474 bytes (381 composed). */
+#define POLYSEED_STR_SIZE 576
 
 /* Mnemonic phrase buffer */
 typedef char polyseed_str[POLYSEED_STR_SIZE];
